@@ -76,9 +76,11 @@ def pystr(v):
     if isinstance(v, bool): return 'true' if v else 'false'
     if isinstance(v, int): return str(v)
     if isinstance(v, str): return v
-    if isinstance(v, list): return '[' + ', '.join(pystr(x) for x in v) + ']'
-    if isinstance(v, tuple) and v and v[0] in ('none', 'some', 'stk'): return None
-    if isinstance(v, tuple): return '(' + ', '.join(pystr(x) for x in v) + ')'
+    if isinstance(v, (list, tuple)):
+        if isinstance(v, tuple) and v and v[0] in ('none', 'some', 'stk'): return None
+        parts = [pystr(x) for x in v]
+        if any(p is None for p in parts): return None      # a component without a documented text
+        return ('[%s]' if isinstance(v, list) else '(%s)') % ', '.join(parts)
     return None
 
 
@@ -176,7 +178,7 @@ def format_cases(tier):
 
     def add(sig, src, exp):
         out.append({'sig': 'C19|' + sig, 'src': src, 'exp': exp})
-    fills = ['', '*', '0', 'x'] + (['é'] if tier != 'quick' else [])
+    fills = ['', '*', '0', 'x'] + (['@'] if tier != 'quick' else [])   # a non-ASCII fill is rejected on purpose (xformatter.rs): not specified by the book
     aligns = ['', '<', '>', '^', '=']
     signs = ['', '+', '-', ' ']
     widths = ['', '1', '6', '13']
@@ -213,6 +215,8 @@ def format_cases(tier):
             continue
         spec = fill + align + sign + zero + width + grp + prec + mode
         for v in floats:
+            if zero and grp and width:
+                continue      # Python puts group separators into the zero padding; the book does not (same facet as for integers)
             add('format-float|%s|%r' % (spec, v), 'format(%s, %s)' % (xfloat(v), xstr(spec)), format(v, spec if mode else spec + 'f'))
     for v in (1.5, -1234.5678, 1e20, 1e-7):
         for prec in ('', '.2'):
